@@ -39,6 +39,14 @@ def sealOp (main mirror : SecCtx) (op : String) (synced : Bool) : Option (SecCtx
       let (r, main') := unwrap main (flipBit sealed bit)
       pure (main', mirror', showU r, if synced then "E" else "*", false)
     | _ => none
+  | 'D' :: rest => do
+    -- two bits altered (n = 4096 * first + second): differences that would cancel in a folded comparison
+    let (n, pt) ← splitColon (String.ofList rest)
+    match wrap mirror pt with
+    | .ok (sealed, mirror') =>
+      let (r, main') := unwrap main (flipBit (flipBit sealed (n / 4096)) (n % 4096))
+      pure (main', mirror', showU r, if synced ∧ n / 4096 ≠ n % 4096 then "E" else "*", false)
+    | _ => none
   | 'R' :: rest => do
     -- the SAME tampered bytes handed in twice: rejected both times
     let (bit, pt) ← splitColon (String.ofList rest)
